@@ -594,3 +594,190 @@ func checkPlanBoundDomain(r *Run, producer *packages.Package, consumers ...*pack
 		r.Undecide("C02-R7: no plan field that is filled from a pattern range bound and compared with a constant by the translator was found")
 	}
 }
+
+// checkReorderDependencyCoverage (R8): the clause-reordering rule may move a MATCH in front of another only if it reads
+// no symbol the other binds. The symbols a MATCH reads inside its patterns sit in the inline property maps of its node
+// patterns and of its relationship patterns. The function that collects them (a function of package optimize from a
+// *cypher.Match to a list of names) must read the Properties field of both pattern kinds — in its own body or in the
+// same-package functions it calls. A collector that looks at the node maps twice and never at the relationship maps lets
+// `MATCH (a) MATCH (x)-[r {since: a.created}]->(y)` be reordered so that `a` is used before it is bound.
+func checkReorderDependencyCoverage(r *Run, op *packages.Package) {
+	const rule = "C02-R8-reorder-dependency-coverage"
+	info := op.TypesInfo
+	cy := r.MustPkg("cypher/models/cypher")
+	var want []*types.Var
+	for _, tname := range []string{"NodePattern", "RelationshipPattern"} {
+		tn, _ := cy.Types.Scope().Lookup(tname).(*types.TypeName)
+		if tn == nil {
+			continue
+		}
+		if st, ok := tn.Type().Underlying().(*types.Struct); ok {
+			for i := 0; i < st.NumFields(); i++ {
+				if st.Field(i).Name() == "Properties" {
+					want = append(want, st.Field(i))
+				}
+			}
+		}
+	}
+	if len(want) < 2 {
+		r.Undecide("C02-R8: the Properties fields of cypher.NodePattern and cypher.RelationshipPattern were not found")
+		return
+	}
+	isWanted := func(v *types.Var) bool {
+		for _, w := range want {
+			if w == v {
+				return true
+			}
+		}
+		return false
+	}
+	n := 0
+	for _, f := range op.Syntax {
+		for _, d := range f.Decls {
+			fd, ok := d.(*ast.FuncDecl)
+			if !ok || fd.Body == nil || fd.Recv != nil || fd.Type.Params == nil || fd.Type.Results == nil {
+				continue
+			}
+			// (*cypher.Match) → []string
+			if len(fd.Type.Params.List) != 1 || len(fd.Type.Results.List) != 1 {
+				continue
+			}
+			if nt := namedOf(info.TypeOf(fd.Type.Params.List[0].Type)); nt == nil || nt.Obj().Name() != "Match" {
+				continue
+			}
+			if sl, ok := info.TypeOf(fd.Type.Results.List[0].Type).Underlying().(*types.Slice); !ok || !types.Identical(sl.Elem(), types.Typ[types.String]) {
+				continue
+			}
+			read := map[*types.Var]bool{}
+			for d := range declsReachableFrom(op, funcDeclName(fd)) {
+				if d.Body == nil {
+					continue
+				}
+				ast.Inspect(d.Body, func(x ast.Node) bool {
+					if sel, ok := x.(*ast.SelectorExpr); ok {
+						if fv, ok := info.Uses[sel.Sel].(*types.Var); ok && isWanted(fv) {
+							read[fv] = true
+						}
+					}
+					return true
+				})
+			}
+			if len(read) == 0 {
+				continue // not a collector of pattern properties
+			}
+			n++
+			construct := funcDeclName(fd)
+			var missing []string
+			for _, w := range want {
+				if !read[w] {
+					missing = append(missing, "the inline property maps of "+map[bool]string{true: "relationship", false: "node"}[strings.Contains(types.TypeString(w.Type(), nil), "Expression") && w.Pkg() != nil && ownerOfField(cy, w) == "RelationshipPattern"]+" patterns")
+				}
+			}
+			if len(missing) == 0 {
+				r.Pass(rule, construct, fd.Pos(), "reads the property maps of node patterns and of relationship patterns")
+			} else {
+				r.Fail(rule, construct, fd.Pos(), "%s collects the symbols a MATCH reads but never looks at %s: a symbol used only there is not a dependency, and the reordering rule moves the clause in front of the one that binds the symbol — the optimised query fails (or binds differently) where the plain translation succeeds", construct, strings.Join(missing, " and "))
+			}
+		}
+	}
+	if n == 0 {
+		r.Undecide("C02-R8: no function of package optimize collects the symbols read by the patterns of a MATCH")
+	}
+}
+
+func ownerOfField(p *packages.Package, fv *types.Var) string {
+	for _, nm := range p.Types.Scope().Names() {
+		if tn, ok := p.Types.Scope().Lookup(nm).(*types.TypeName); ok {
+			if st, ok := tn.Type().Underlying().(*types.Struct); ok {
+				for i := 0; i < st.NumFields(); i++ {
+					if st.Field(i) == fv {
+						return tn.Name()
+					}
+				}
+			}
+		}
+	}
+	return ""
+}
+
+// checkPathOrderUnreversed (R9): when the optimiser reverses a pattern, the path binding keeps its dependencies in the
+// reversed order and says so in a flag (a boolean field of the binding whose name ends in "Reversed"). Every function of
+// the translator that turns the dependencies of a binding into an ordered list — it ranges over <b>.Dependencies and
+// appends to a slice inside the loop — must read that flag of the same binding; otherwise `relationships(p)` lists the
+// edges in the opposite order whenever the reversal rule fires, and the two configurations disagree.
+func checkPathOrderUnreversed(r *Run, tp *packages.Package) {
+	const rule = "C02-R9-path-order-unreversed"
+	info := tp.TypesInfo
+	n := 0
+	for _, f := range tp.Syntax {
+		for _, d := range f.Decls {
+			fd, ok := d.(*ast.FuncDecl)
+			if !ok || fd.Body == nil {
+				continue
+			}
+			ast.Inspect(fd.Body, func(x ast.Node) bool {
+				rs, ok := x.(*ast.RangeStmt)
+				if !ok {
+					return true
+				}
+				sel, ok := ast.Unparen(rs.X).(*ast.SelectorExpr)
+				if !ok || sel.Sel.Name != "Dependencies" {
+					return true
+				}
+				base, ok := ast.Unparen(sel.X).(*ast.Ident)
+				if !ok {
+					return true
+				}
+				bobj := info.Uses[base]
+				// the binding's type has a …Reversed flag
+				var flag *types.Var
+				if nt := namedOf(info.TypeOf(base)); nt != nil {
+					if st, ok := nt.Underlying().(*types.Struct); ok {
+						for i := 0; i < st.NumFields(); i++ {
+							fv := st.Field(i)
+							if b, isBasic := fv.Type().Underlying().(*types.Basic); isBasic && b.Kind() == types.Bool && strings.HasSuffix(fv.Name(), "Reversed") {
+								flag = fv
+							}
+						}
+					}
+				}
+				if flag == nil {
+					return true
+				}
+				// ordered accumulation inside the loop
+				appends := false
+				ast.Inspect(rs.Body, func(y ast.Node) bool {
+					if c, ok := y.(*ast.CallExpr); ok {
+						if id, ok := ast.Unparen(c.Fun).(*ast.Ident); ok && id.Name == "append" {
+							appends = true
+						}
+					}
+					return !appends
+				})
+				if !appends {
+					return true
+				}
+				n++
+				construct := funcDeclName(fd) + ":" + base.Name + ".Dependencies"
+				reads := false
+				ast.Inspect(fd.Body, func(y ast.Node) bool {
+					if s2, ok := y.(*ast.SelectorExpr); ok && info.Uses[s2.Sel] == types.Object(flag) {
+						if id, ok := ast.Unparen(s2.X).(*ast.Ident); ok && info.Uses[id] == bobj {
+							reads = true
+						}
+					}
+					return !reads
+				})
+				if reads {
+					r.Pass(rule, construct, rs.Pos(), "the order of the list built from the dependencies is put right with %s.%s", base.Name, flag.Name())
+				} else {
+					r.Fail(rule, construct, rs.Pos(), "%s builds an ordered list from %s.Dependencies without looking at %s.%s: when the optimiser has reversed the pattern the dependencies are stored back to front, so the list (the edges of relationships(p)) comes out in the opposite order — the optimised and the plain translation return different values", funcDeclName(fd), base.Name, base.Name, flag.Name())
+				}
+				return true
+			})
+		}
+	}
+	if n == 0 {
+		r.Undecide("C02-R9: no function of package translate builds an ordered list from the dependencies of a binding that has a …Reversed flag")
+	}
+}
